@@ -24,7 +24,8 @@ def run(ctx):
                 raise HarnessError(f"modelcheck table out of date: {det}")
             ctx.violate("fields", cls, det)
     feats = {"cond": ch.coin(3, 4, "f-cond"), "loop": ch.coin(3, 4, "f-loop"), "cfg": ch.coin(3, 4, "f-cfg"),
-             "calls": True, "poly": ch.coin(1, 2, "f-poly"), "meta": ch.coin(3, 4, "f-meta"), "insert": ch.coin(1, 3, "f-insert")}
+             "calls": True, "poly": ch.coin(1, 2, "f-poly"), "meta": ch.coin(3, 4, "f-meta"), "insert": ch.coin(1, 3, "f-insert"),
+             "second_ext": ch.coin(1, 2, "f-second-ext"), "stray_links": ch.coin(1, 2, "f-stray-links"), "odd_names": ch.coin(1, 2, "f-odd-names")}
     try:
         sim = BuilderSim(ctx, root_kind="module", features=feats, max_steps=15 + ch.draw(50, "max-steps"))
         ctx.profile = {"root": "module", **feats}
